@@ -10,6 +10,8 @@ file (lib.bdecode_strict + hashlib + datetime + posixpath) which is the direct o
 import zlib
 import datetime, hashlib, ipaddress, json, os, posixpath, re, shutil, tempfile
 import lib
+import sys
+sys.setrecursionlimit(max(sys.getrecursionlimit(), 30000))     # the corpus holds values nested ~2050 deep
 
 MANIFEST = dict(
     text="Machine-checked proof over a Gallina model of the typed metainfo loader and of TorrentSummary (JSON fields, text "
@@ -414,8 +416,11 @@ def read_file(data):
     else:
         if not isinstance(files, list):
             raise Unreadable("neither length nor files")
-        paths = [[c.decode("utf-8") for c in g(f, "path")] for f in files]
-        lens = [g(f, "length") for f in files]
+        # a file entry is a dictionary or (serde's sequence form of a struct, which imdl reads; X4) the list [length, path, ...]
+        fpath = lambda f: f[1] if isinstance(f, list) else g(f, "path")
+        flen = lambda f: f[0] if isinstance(f, list) else g(f, "length")
+        paths = [[c.decode("utf-8") for c in fpath(f)] for f in files]
+        lens = [flen(f) for f in files]
     nodes = g(v, "nodes")
     al = g(v, "announce-list")
     return {
@@ -640,8 +645,8 @@ def model_line(data, runs=None):
         if isinstance(fl, list):
             tot = 0
             for f in fl:
-                n = lib.dget(f, "length")
-                if isinstance(n, int) and n >= 0:
+                n = f[0] if isinstance(f, list) and f else lib.dget(f, "length")     # dictionary or sequence form
+                if isinstance(n, int) and not isinstance(n, bool) and n >= 0:
                     tot += n
             nums.add(tot)
         pl = lib.dget(info, "piece length")
@@ -782,6 +787,16 @@ def run(ctx):
     cases = []   # (kind, expect, top-or-None, bytes)
     for name, expect, top in corpus():                   # regression corpus first (past findings, the 2^64 boundary)
         cases.append((name, expect, top, lib.bencode(top)))
+    # X4: where the C07 model was repaired after comparison with the other loader models - serde's sequence form of a
+    # file entry is printed like the dictionary form; nesting deeper than 2048 is refused (2047 levels under a top-level key fit)
+    seqf = {b"info": {b"name": b"n", b"piece length": 16384, b"pieces": b"",
+                      b"files": [[5, [b"a"]], [7, [b"d", b"e"], b"0" * 32], {b"length": 1, b"path": [b"z"]}]}}
+    cases.append(("corpus-file-entries-as-sequences", "accept", seqf, lib.bencode(seqf)))
+    bad = {b"info": {b"name": b"n", b"piece length": 16384, b"pieces": b"", b"files": [[5, [b"a"], b"0" * 32, 1]]}}
+    cases.append(("corpus-file-entry-sequence-of-four", "reject", bad, lib.bencode(bad)))
+    plain = lib.bencode({b"info": {b"name": b"n", b"piece length": 16384, b"pieces": b"", b"length": 3}})
+    for n, exp in ((2047, "accept"), (2048, "reject")):
+        cases.append(("corpus-unknown-key-nested-%d" % n, exp, None, plain[:-1] + b"3:zzz" + b"l" * n + b"e" * n + b"e"))
     for _ in range(ctx.n(360, 9000)):
         top, fits = gen_spec(r, big=r.choice(BIG_SUMS) if r.random() < 0.06 else None)
         cases.append(("valid", "accept" if fits else "reject", top, lib.bencode(top)))
